@@ -10,7 +10,7 @@
    absent (not admitted) — see notes/ALGO_design.md for the exact state. *)
 From Coq Require Import NArith List Bool.
 From CS Require Import Sx Str PathModel StateModel StateProofs ProvModel AlgoModel AlgoCheck AlgoProofs AlgoState AlgoProv AlgoInv AlgoInit AlgoQuiet AlgoIntake
-     AlgoSync AlgoLatest AlgoFinish AlgoSyncEntry AlgoStep AlgoUser AlgoCalls AlgoRun.
+     AlgoSync AlgoLatest AlgoFinish AlgoSyncEntry AlgoStep AlgoUser AlgoCalls AlgoRun AlgoTotal.
 Import ListNotations.
 Local Open Scope N_scope.
 
@@ -39,7 +39,7 @@ Theorem ALGO_inv_get_latest : forall evl g w e force sides w',
   InvP evl g w -> (2 <= e)%nat -> get_latest w e force sides = ROk w' ->
   InvP evl g w' /\ (forall sd0, prov_of w' sd0 = prov_of w sd0) /\
   (forall x sd0, x <> e -> getx w' x sd0 = getx w x sd0) /\ now (w_st w) <= now (w_st w') /\
-  (forall sd0, x_tfile (getx w' e sd0) = x_tfile (getx w e sd0)).
+  (forall sd0, x_tfile (getx w' e sd0) = x_tfile (getx w e sd0)) /\ length (ents (w_st w')) = length (ents (w_st w)).
 Proof. exact get_latest_pres. Qed.
 Print Assumptions ALGO_inv_get_latest.
 
@@ -220,6 +220,28 @@ Theorem ALGO_quiescent_equal : forall t0 lg0 acts w,
   forall rel kd d, In (rel, (kd, d)) (rel_view w false) <-> In (rel, (kd, d)) (rel_view w true).
 Proof. exact algo_quiescent_equal. Qed.
 Print Assumptions ALGO_quiescent_equal.
+
+(* ---- where the model can answer OutOfFragment ---------------------------------------------------------------- *)
+(* The theorems above are about runs on which the model answers ROk.  From the invariant the following parts of an
+   engine step ALWAYS answer: event intake (whatever is pending), and in a sync step everything up to SyncManager.sync
+   on the picked entry - SyncState.change with the provider calls of its path-filling loop, the pick, pre_sync
+   (get_latest of both sides or the finishing of a discarded entry).  So an OutOfFragment answer of a sync step is
+   an OutOfFragment answer of [sync_entry] in a refreshed world.  (That [sync_entry] never answers it on in-domain
+   runs is measured by the tie - 0 answers - not proved.) *)
+Theorem ALGO_intake_total : forall g w sd, Inv g w -> exists w', intake w sd = ROk w'.
+Proof. exact intake_total. Qed.
+Print Assumptions ALGO_intake_total.
+
+Theorem ALGO_pre_sync_total : forall g w e en, Inv g w -> (2 <= e)%nat -> nth_error (ents (w_st w)) e = Some en ->
+  exists r, pre_sync w e = ROk r.
+Proof. exact pre_sync_total. Qed.
+Print Assumptions ALGO_pre_sync_total.
+
+Theorem ALGO_sync_step_total_up_to_sync : forall g w order c,
+  Inv g w -> NoTmp w -> sync_step w order = OutOfFragment c ->
+  exists w3 e en3, SCtx g w3 e en3 /\ e_ign en3 = INone /\ sync_entry w3 e = OutOfFragment c.
+Proof. exact sync_step_total_up_to_sync. Qed.
+Print Assumptions ALGO_sync_step_total_up_to_sync.
 
 (* ---- C03: the origin is untouched --------------------------------------------------------------------------- *)
 (* [algo_run_calls] = algo_run keeping the engine-issued provider calls of every step (the calls the tie compares with
